@@ -11,6 +11,9 @@ CHECKS = {
     'C03': ('Sched', 'TLC exhaustive with OneAtATime / NoDrop / ReplyRecorded; on real-code traces TLC checks one-at-a-time on the wire, hand-out at most once, messages stay queued, every live reply recorded exactly once and propagated, crew view = in-flight bag', '5.C03'),
     'C04': ('Sched', 'TLC exhaustive with IdleEmpty / Progress / NoStuck (+ liveness Quiesce under FairSpec in thorough); on real-code traces TLC checks IdleEmpty after every event and Progress on every dispatch, and every schedule is drained to quiescence', '5.C04'),
     'C05': ('Sched', 'TLC exhaustive with C05_Contained over every state in which a non-success reply can arrive; on real-code traces TLC checks withdrawal from all transitive dependents, the frame condition on all other work, nothing triggered, outcome recorded (chronicle file read back)', '5.C05'),
+    'C10': ('Lifecycle', 'TLC exhaustive on Lifecycle.tla (every order of background-step completions vs. triggers from their real sources, <=3 submissions, environment toggles, reset/archive cycles) with Edges/Rest/Active/Rejected/ArchiveReturns and the liveness property Return under FairSpec; every transition of a smaller instance + simulated behaviours executed on the real FSM (real transitions machine, real submit Process steps, real cmd_reset, real farm.dispatch) with held background steps; TLC validates every recorded step incl. the path of states passed through, out-of-turn triggers, and rest after draining', '5.C10'),
+    'C11': ('Farm', 'TLC exhaustive on Farm.tla (registrations with matching/stale revision, disconnects, status polls, dispatch ticks, replies, reload and archive cycles; 3-4 worker connections) with Eligible/Silent/Leave/Stay/Fields/FreshLarger/DrawnIff; transitions + simulated behaviours replayed on the real Hand protocol objects, dispatch, notify_all; TLC validates the messages decoded from each fake worker transport against the ground-truth worker table it maintains itself', '5.C11'),
+    'C12': ('Lifecycle', 'TLC exhaustive on Lifecycle.tla with the poller split into observe / callback (OnlyWhenAllowed, ExactlyOnce, NotLost, Refused) and the liveness property EventuallyIfIdle; replays on the real FSM with the real poller functions running in gated threads and their deferred callback delivered as a separate event; update_trigger is wrapped to log the farm/scheduler state at the instant it is called; TLC validates each step and the quiescent end state', '5.C12'),
 }
 
 NOT_YET = {}
@@ -47,6 +50,8 @@ def main():
         },
         'engines': [
             {'name': 'Sched', 'path': 'spec/Sched.tla', 'serves_properties': ['C01', 'C02', 'C03', 'C04', 'C05'], 'kind_free_text': 'TLA+ spec of scheduler+farm core; Sched_MC (exhaustive), Sched_Gen (transition/behaviour export), Sched_Trace (trace validation); harness/sched_h.py drives the real code'},
+            {'name': 'Farm', 'path': 'spec/Farm.tla', 'serves_properties': ['C11'], 'kind_free_text': 'TLA+ spec of worker registration/placement/notification; Farm_Gen, Farm_Trace; harness/farm_h.py'},
+            {'name': 'Lifecycle', 'path': 'spec/Lifecycle.tla', 'serves_properties': ['C10', 'C12'], 'kind_free_text': 'TLA+ spec of the pipeline FSM, submit crossroads and pollers (safety + liveness); Lifecycle_Gen, Lifecycle_Trace; harness/life_h.py (gated poller threads)'},
         ],
         'checks': checks,
         'not_applicable': na,
